@@ -346,7 +346,7 @@ pub fn def_c03() -> PropDef {
         title: "Search-as-you-type: any prefix of any title word finds the record",
         rule: "random worlds (1-10 records, limit >= |store|, titles from per-case vocabulary / real e-commerce titles / accented, stem-bearing, doubled-letter, function, one- and two-letter words, inner apostrophes and slashes, expanding letters); the check enumerates EVERY record x EVERY word x EVERY prefix ending in a letter or digit, typed in normalised and in original spelling. Non-trivial = a proper prefix probed in a store with >= 2 records where another word shares the first letter; distinct = distinct world",
         assumptions: ASSUME,
-        spaces: vec![Space { name: "world", decode: decode_c03, plan: |t| Plan::Random(t.n(12_000, 400_000)) }],
+        spaces: vec![Space { name: "world", decode: decode_c03, plan: |t| Plan::Random(t.n(40_000, 800_000)) }],
         differential: false,
     }
 }
@@ -357,7 +357,7 @@ pub fn def_c04() -> PropDef {
         title: "A single typo in a word of five or more letters still finds the record",
         rule: "random worlds as C03 plus 1-3 extra words of 5-7 letters (closest to the 0.21 threshold); for every qualifying word (normalised form all letters, >= 5 long, >= 3 distinct): every deletion, every adjacent transposition, 3 substitutions per position and 2 insertions per gap with lower-case letters of the language's script that normalisation leaves unchanged; the edited word is searched alone. Non-trivial = the edited word differs from the original and is not itself another title word; distinct = distinct world",
         assumptions: ASSUME,
-        spaces: vec![Space { name: "world", decode: decode_c04, plan: |t| Plan::Random(t.n(8_000, 300_000)) }],
+        spaces: vec![Space { name: "world", decode: decode_c04, plan: |t| Plan::Random(t.n(20_000, 500_000)) }],
         differential: false,
     }
 }
@@ -368,7 +368,7 @@ pub fn def_c13() -> PropDef {
         title: "Typing a whole title, or its words in another order, finds the record",
         rule: "random worlds as C03; for every record with >= 1 word the title itself is searched; for (first,last), (last,first) and up to 3 sampled ordered pairs of distinct word positions the two words are searched separated by a space, in normalised and original spelling. Non-trivial = title with >= 3 words, a function word or a repeated word; distinct = distinct world",
         assumptions: ASSUME,
-        spaces: vec![Space { name: "world", decode: decode_c13, plan: |t| Plan::Random(t.n(20_000, 600_000)) }],
+        spaces: vec![Space { name: "world", decode: decode_c13, plan: |t| Plan::Random(t.n(80_000, 1_500_000)) }],
         differential: false,
     }
 }
@@ -379,7 +379,7 @@ pub fn def_c14() -> PropDef {
         title: "Split and joined spellings find each other",
         rule: "random worlds as C03 with joined shapes over-represented (a word written as two words with 1-3 separator characters); every title word >= 3 chars x every split point is searched as two words; every adjacent pair with a gap of exactly one character whose concatenation has >= 3 chars and which the query tokeniser returns as one word with stem == length is searched run together. Non-trivial = a one-letter half, or a joined pair; distinct = distinct world",
         assumptions: ASSUME,
-        spaces: vec![Space { name: "world", decode: decode_c14, plan: |t| Plan::Random(t.n(12_000, 400_000)) }],
+        spaces: vec![Space { name: "world", decode: decode_c14, plan: |t| Plan::Random(t.n(50_000, 1_000_000)) }],
         differential: false,
     }
 }
